@@ -298,6 +298,10 @@ pub enum BrokerAct {
     SendRaw(Vec<u8>),
     /// close the stream once the inbound queue has been read
     Close,
+    /// from now on transport and broker behave on this connection: planned faults, stalls and
+    /// delays are dropped, reads and writes are taken whole, withheld acknowledgements go out and
+    /// every further packet is acknowledged at once
+    Behave,
     /// change the ack policy of the current connection
     Policy(BrokerPolicy),
     /// the network stalls: of whatever the broker sends next, only `after` bytes arrive at once;
